@@ -581,6 +581,7 @@ def length_codec(rep, prog):
     P = _Relabel(rep, 'C20.7')
     H = prog.cls('pgpy.types', 'Header')
     B = C09.Bench(P, prog)
-    C09.new_format(P, prog, H, B)
+    C09.newformat(P, prog, B)
     C09.widths(P, prog, H, B)
-    C09.tag_octet(P, prog, B)
+    C09.tagoctet(P, prog, B)
+    C09.partial(P, prog, B)
